@@ -159,6 +159,9 @@ namespace pika::threads::detail {
 
             PIKA_ASSERT(thrd_data->get_state().state() == thread_schedule_state::active);
             PIKA_ASSERT(state != thread_schedule_state::active);
+#if defined(PIKA_VERIF)
+            PIKA_VERIF_POINT(204, thrd_data, static_cast<std::uint64_t>(state), 0);
+#endif
             statex = self_.yield(thread_result_type(state, invalid_thread_id));
             PIKA_ASSERT(
                 get_thread_id_data(id)->get_state().state() == thread_schedule_state::active);
